@@ -1088,3 +1088,45 @@ func (e *Engine) forEachInstrRegion(fn *ssa.Function, depth int, f func(in ssa.I
 		forEachInstr(g, f)
 	}
 }
+
+// reachableFromErrEdgeOf: target is reachable in fn from the non-nil edge of
+// a test of call c's error result.
+func (e *Engine) reachableFromErrEdgeOf(fn *ssa.Function, c *ssa.Call, target ssa.Instruction) bool {
+	vals, hasErr, dropped := errValueOf(c)
+	if !hasErr {
+		return false
+	}
+	if dropped {
+		return true
+	}
+	for _, v := range vals {
+		for a := range errAliases(v) {
+			refs := a.Referrers()
+			if refs == nil {
+				continue
+			}
+			for _, ref := range *refs {
+				bo, isB := ref.(*ssa.BinOp)
+				if !isB || !(isNilConst(bo.X) || isNilConst(bo.Y)) {
+					continue
+				}
+				for _, cf := range ValueUsesAsCond(bo) {
+					errSucc := cf.Block().Succs[0]
+					if bo.Op.String() == "==" {
+						errSucc = cf.Block().Succs[1]
+					}
+					if len(errSucc.Instrs) == 0 {
+						continue
+					}
+					if errSucc.Instrs[0] == target {
+						return true
+					}
+					if e.findPath(fn, errSucc.Instrs[0], func(in ssa.Instruction) bool { return in == target }, nil, nil).Found {
+						return true
+					}
+				}
+			}
+		}
+	}
+	return false
+}
